@@ -57,6 +57,49 @@ CLAIMED['C07'] = (
     'contracts (generate_request/generate_response) once those are registered.',
     'DESIGN.md section 6 C07')
 
+TIERB_NOTE = (' Tier B assumptions: IkeSa objects live in a Boogie-style heap (one array per field); handlers whose '
+              'bodies are not verified yet are called through ASSUMED contracts (listed by name in '
+              'evidence.coverage.trusted_base) that every handler must meet: in-window precondition, Inv(IkeSa) '
+              're-established, counters of the window untouched; T6 Message IDs do not wrap; value semantics for '
+              'message objects (alias sites listed in evidence); time is integer ticks and time.time() is any '
+              'non-decreasing value.')
+CLAIMED['C03'] = (
+    'Proof over every state satisfying Inv(IkeSa) in which peer keys exist (state, counters, CHILD_SAs, timers all '
+    'symbolic; both roles) and every datagram: IkeSa.process_message leaves every field of the IKE_SA and of its '
+    'successor, the effect trace, the handler counter and the clock untouched and returns None -- or the stored '
+    'response for a retransmitted IKE_SA_INIT request -- unless Message.parse handed back a message marked protected; '
+    'Message.parse marks a message protected only after the MAC over data[:-icv] matched data[-icv:] (no path skips '
+    'the comparison) and produces inner payloads only for protected messages; a parse error leaves everything '
+    'unchanged.  Found and repaired: F4 (unauthenticated cleartext request tore down an established IKE_SA).',
+    'Unforgeability of the MAC is T3.  The controller-level routing of such datagrams is C16.' + TIERB_NOTE,
+    'DESIGN.md section 6 C03')
+CLAIMED['C08'] = (
+    'Proof over every Inv(IkeSa) state and every message: _process_request answers Message ID peer_msg_id-1 with the '
+    'byte-identical stored response and changes nothing, drops every other ID except peer_msg_id without any change, '
+    'and for peer_msg_id runs exactly one handler (ghost counter), advances peer_msg_id by one and stores the '
+    'response it returns; _process_response drops every ID other than my_msg_id without any change and otherwise runs '
+    'exactly one handler; handlers carry the call-site precondition "message_id is the expected one" so any path '
+    'reaching a handler with another ID is a failed obligation; generate_request/generate_response stamp version 2.0, '
+    'the IKE_SA SPIs, the role flag, the kind flag, the exchange type given and my_msg_id/peer_msg_id; every request '
+    'generator checked so far starts from ESTABLISHED (or REKEYED) and leaves a request-outstanding state with '
+    'self.request set to the message it returns.',
+    'Handlers and triggers are ASSUMED contracts at this stage (see evidence); consecutive-IDs-from-0 rests on those '
+    'and on Inv.I3.' + TIERB_NOTE,
+    'DESIGN.md section 6 C08')
+CLAIMED['C13'] = (
+    'Proof over every Inv(IkeSa) state and every clock reading: check_retransmission_timer does nothing unless a '
+    'request is outstanding and due, otherwise returns wire(self.request) -- the same bytes _send_request returned, '
+    'because the datagram is a function of the message value (Message.to_bytes == wire(m) is proved) -- with '
+    'retransmissions+1 and the next deadline retransmit_at + 2*retransmissions (2,4,6,8: non-decreasing), and after '
+    'MAX_RETRANSMISSIONS ends in DELETED; _send_request arms retransmissions=1, retransmit_at=now+2; the DPD timer '
+    'fires only in ESTABLISHED once start_dpd_at has passed and sends an empty INFORMATIONAL request, the liveness '
+    'timer is reset only by protected input (C03 clause); check_rekey_ike_sa_timer acts only in ESTABLISHED, sends '
+    'the delete after delete_ike_sa_at and the rekey after rekey_ike_sa_at.',
+    'Not decided: constructor arming (IkeSa.__init__), request identity across the INVALID_KE retry branches of '
+    'process_create_child_sa_response (F6, not yet examined by the checker), the controller sweep and the crash-bound '
+    'lemma; generate_rekey_ike_sa_request is an ASSUMED contract.' + TIERB_NOTE,
+    'DESIGN.md section 6 C13')
+
 NOT_YET ='not yet claimed: contracts for this property are still being brought under the verifier (DESIGN.md section 6)'
 
 
